@@ -539,7 +539,22 @@ def _symbolic_loop(ex, s, fr, var, start, stop, step):
         affine[n] = delta
       except Unsupported:
         continue
-  invs = ex.invariants.get((info.key, ordn), [])
+  spec = ex.invariants.get((info.key, ordn), [])
+  if isinstance(spec, dict):
+    invs = list(spec.get("inv", []))
+    hints = list(spec.get("hints", []))
+    gov = [fr.env[n] for n in spec.get("arrays", []) if isinstance(fr.env.get(n), ArrRef)]
+    if len(gov) != len(spec.get("arrays", [])):
+      raise Unsupported(f"invariant of {info.key}#loop{ordn} names arrays that are not in scope")
+  else:
+    invs = list(spec)
+    hints = []
+    gov = []
+  gov_ids = {r.aid for r in gov}
+  arrs_pre = dict(st.arrs)
+  n_assumes_head = len(ex.assumes)  # background facts known before the loop (for initiation)
+  n_assumes_body = n_assumes_head
+  cond_start = True
   dirty = set()
   for _pass in range(4):
     log_start = len(st.log)
@@ -557,38 +572,52 @@ def _symbolic_loop(ex, s, fr, var, start, stop, step):
     envb["$cnt"] = False
     for aid in dirty:
       ex.havoc_array(st.meta[aid])
+    for r in gov:
+      ex.havoc_array(r)  # classic loop rule: arbitrary state at the loop head, constrained by the invariant
     fr.env = envb
     st.bound.append(k)
     st.pc.append(rng)
     inv_start = []
     try:
+      # The invariant at the loop head is an ASSUMPTION about the (fresh) symbols that stand for
+      # iteration k, not a path condition: it is recorded as the background fact
+      # `reached-the-head(k) -> Inv(k)` so that it does not end up inside every store guard.
+      head = zb(zand(*st.pc))
       for text in invs:
         f = tobool(_eval_inv(ex, fr, text, {"_k": k}))
         inv_start.append(f)
-        st.pc.append(f)
+        ex.assume(z3.Implies(head, zb(f)))
+      # hints: instances of definitions / axioms at the loop index (e.g. one unfolding of a
+      # recursive ghost function). Each hint is itself an obligation (it must follow from the
+      # hypotheses at the loop head), then it is available to the body and to consecution.
+      for hi, text in enumerate(hints):
+        f = tobool(_eval_inv(ex, fr, text, {"_k": k}))
+        ex.side.append((f"{info.key}#loop{ordn}.hint{hi}", [h for h in list(st.pc) + inv_start if h is not True], zb(f), len(ex.assumes)))
+        inv_start.append(f)
+        ex.assume(z3.Implies(head, zb(f)))
       if not is_for:
         c = simp_bool(tobool(ex.eval(s.test, fr)))
+        cond_start = c
         st.pc.append(c)
       try:
         ex.exec_block(body, fr)
       finally:
         if not is_for:
           st.pc.pop()
-        for _ in inv_start:
-          st.pc.pop()
     finally:
       st.pc.pop()
       st.bound.pop()
     env_end = fr.env
+    n_assumes_body = len(ex.assumes)  # + axioms instantiated while executing the body (sqrt, bit-or, ...)
     body_log = st.log[log_start:]
     # loop-carried memory dependences
     if getattr(ex, "fast", False):
       # index/guard schemas only: no solver calls; every array that is both read and written
       # in the body is treated as carrying a dependence (havocked for the body pass)
       wr = {a.arr.aid for a in body_log if a.kind != "r"}
-      new_dirty = {a.arr.aid for a in body_log if a.kind == "r" and a.arr.aid in wr}
+      new_dirty = {a.arr.aid for a in body_log if a.kind == "r" and a.arr.aid in wr} - gov_ids
     else:
-      new_dirty = carried_dependences(ex, body_log, [k], dirty)
+      new_dirty = carried_dependences(ex, body_log, [k], dirty | gov_ids) - gov_ids
     if new_dirty <= dirty:
       break
     dirty |= new_dirty
@@ -609,6 +638,8 @@ def _symbolic_loop(ex, s, fr, var, start, stop, step):
   if invs:
     fr.env = env0
     ex.st.pc.append(True)
+    arrs_now = st.arrs
+    st.arrs = arrs_pre  # initiation is about the state before the first iteration
     try:
       for i, text in enumerate(invs):
         init_env = {"_k": z3.IntVal(0)}
@@ -621,21 +652,20 @@ def _symbolic_loop(ex, s, fr, var, start, stop, step):
             env0.pop(var, None)
           else:
             env0[var] = saved_v
-        ex.side.append((f"{info.key}#loop{ordn}.inv{i}.init", list(st.pc), zb(g)))
+        ex.side.append((f"{info.key}#loop{ordn}.inv{i}.init", list(st.pc), zb(g), n_assumes_head))
     finally:
       ex.st.pc.pop()
+      st.arrs = arrs_now
     fr.env = env_end
     nxt = _copy_env(env_end)
     if is_for:
       nxt[var] = lift(ivar) + step
     fr.env = nxt
     cont_ok = znot(zor(env_end.get("$brk", False), env_end.get("$ret", False)))
-    hyp = list(st.pc) + [rng] + inv_start
-    if not is_for:
-      hyp.append(simp_bool(tobool(ex.eval(s.test, _with_env(fr, _havoc_env_view(envb))))) if False else True)
+    hyp = list(st.pc) + [rng] + inv_start + [cond_start]
     for i, text in enumerate(invs):
       g = tobool(_eval_inv(ex, fr, text, {"_k": k + 1}))
-      ex.side.append((f"{info.key}#loop{ordn}.inv{i}.step", [h for h in hyp if h is not True] + [zb(cont_ok)], zb(g)))
+      ex.side.append((f"{info.key}#loop{ordn}.inv{i}.step", [h for h in hyp if h is not True] + [zb(cont_ok)], zb(g), n_assumes_body))
     fr.env = env_end
 
   # state after the loop
@@ -645,7 +675,9 @@ def _symbolic_loop(ex, s, fr, var, start, stop, step):
     for aid in written:
       ex.havoc_array(st.meta[aid], "" if getattr(ex, "fast", False) else f"loop with break/return at {info.key}:{s.lineno}")
   else:
-    summarise_stores(ex, body_log, arrs_before, st.bound, info.key, s.lineno)
+    summarise_stores(ex, [a for a in body_log if a.arr.aid not in gov_ids], arrs_before, st.bound, info.key, s.lineno)
+    for r in gov:
+      ex.havoc_array(r)
     for aid in dirty:
       ex.havoc_array(st.meta[aid], f"loop-carried memory dependence at {info.key}:{s.lineno}")
   env_after = _copy_env(env0)
